@@ -36,6 +36,9 @@ fn main() {
     }
     *OUT_PATH.lock().unwrap() = out.clone();
     install_panic_hook();
+    if let (Some(p), None) = (&out, &o.replay) {
+        start_heartbeat(p);
+    }
     let t0 = std::time::Instant::now();
     let mut stats = Stats::default();
     let resume = props::run(&id, &o, &mut stats);
